@@ -180,10 +180,81 @@ func stConfig(kind string) *fosite.Config {
 	}
 }
 
+// isoStore is the reference MemoryStore behind value semantics: every request is deep-copied when it is
+// stored and when it is read back, the way a serialising database behaves.  The reference store's own
+// maps and mutexes are used unchanged; what the wrapper removes is the sharing of one *Request / Session
+// object between the concurrent requests that look up the same record (known finding
+// C19:stored-request-shared-between-concurrent-requests).
+type isoStore struct{ *storage.MemoryStore }
+
+func isoGet(r fosite.Requester, err error) (fosite.Requester, error) {
+	if r == nil {
+		return nil, err
+	}
+	return cloneRequest(r), err
+}
+
+func (s isoStore) CreateAuthorizeCodeSession(ctx context.Context, code string, req fosite.Requester) error {
+	return s.MemoryStore.CreateAuthorizeCodeSession(ctx, code, cloneRequest(req))
+}
+func (s isoStore) GetAuthorizeCodeSession(ctx context.Context, code string, sess fosite.Session) (fosite.Requester, error) {
+	return isoGet(s.MemoryStore.GetAuthorizeCodeSession(ctx, code, sess))
+}
+func (s isoStore) CreatePKCERequestSession(ctx context.Context, sig string, req fosite.Requester) error {
+	return s.MemoryStore.CreatePKCERequestSession(ctx, sig, cloneRequest(req))
+}
+func (s isoStore) GetPKCERequestSession(ctx context.Context, sig string, sess fosite.Session) (fosite.Requester, error) {
+	return isoGet(s.MemoryStore.GetPKCERequestSession(ctx, sig, sess))
+}
+func (s isoStore) CreateOpenIDConnectSession(ctx context.Context, code string, req fosite.Requester) error {
+	return s.MemoryStore.CreateOpenIDConnectSession(ctx, code, cloneRequest(req))
+}
+func (s isoStore) GetOpenIDConnectSession(ctx context.Context, code string, req fosite.Requester) (fosite.Requester, error) {
+	return isoGet(s.MemoryStore.GetOpenIDConnectSession(ctx, code, req))
+}
+func (s isoStore) CreateAccessTokenSession(ctx context.Context, sig string, req fosite.Requester) error {
+	return s.MemoryStore.CreateAccessTokenSession(ctx, sig, cloneRequest(req))
+}
+func (s isoStore) GetAccessTokenSession(ctx context.Context, sig string, sess fosite.Session) (fosite.Requester, error) {
+	return isoGet(s.MemoryStore.GetAccessTokenSession(ctx, sig, sess))
+}
+func (s isoStore) CreateRefreshTokenSession(ctx context.Context, sig, atSig string, req fosite.Requester) error {
+	return s.MemoryStore.CreateRefreshTokenSession(ctx, sig, atSig, cloneRequest(req))
+}
+func (s isoStore) GetRefreshTokenSession(ctx context.Context, sig string, sess fosite.Session) (fosite.Requester, error) {
+	return isoGet(s.MemoryStore.GetRefreshTokenSession(ctx, sig, sess))
+}
+func (s isoStore) CreatePARSession(ctx context.Context, uri string, req fosite.AuthorizeRequester) error {
+	return s.MemoryStore.CreatePARSession(ctx, uri, cloneAuthorizeRequest(req))
+}
+func (s isoStore) GetPARSession(ctx context.Context, uri string) (fosite.AuthorizeRequester, error) {
+	r, err := s.MemoryStore.GetPARSession(ctx, uri)
+	if r == nil {
+		return nil, err
+	}
+	return cloneAuthorizeRequest(r), err
+}
+func (s isoStore) CreateDeviceAuthSession(ctx context.Context, dsig, usig string, req fosite.DeviceRequester) error {
+	return s.MemoryStore.CreateDeviceAuthSession(ctx, dsig, usig, cloneDeviceRequest(req))
+}
+func (s isoStore) GetDeviceCodeSession(ctx context.Context, sig string, sess fosite.Session) (fosite.DeviceRequester, error) {
+	r, err := s.MemoryStore.GetDeviceCodeSession(ctx, sig, sess)
+	if r == nil {
+		return nil, err
+	}
+	return cloneDeviceRequest(r), err
+}
+
 func newStress(kind string) *stress {
-	store := storage.NewMemoryStore() // the raw reference store: no wrapper, no cloning
+	raw := storage.NewMemoryStore()
 	for id, c := range stClients() {
-		store.Clients[id] = c // before any goroutine starts
+		raw.Clients[id] = c // before any goroutine starts
+	}
+	// FZ_STRESS_STORE=raw: the reference store as it is (requests shared by pointer between callers);
+	// anything else: the same store behind value semantics
+	var store interface{} = isoStore{raw}
+	if os.Getenv("FZ_STRESS_STORE") == "raw" {
+		store = raw
 	}
 	cfg := stConfig(kind)
 	grants := 2
@@ -511,6 +582,11 @@ func (s *stress) summary(goroutines int, d time.Duration) string {
 	if s.grants == 1 {
 		share = "tokens"
 	}
+	if os.Getenv("FZ_STRESS_STORE") == "raw" {
+		share += " store=raw"
+	} else {
+		share += " store=isolated"
+	}
 	return fmt.Sprintf("STRESS config=%s share=%s goroutines=%d seconds=%d ops=%d (ok/err)%s", s.name, share, goroutines, int(d.Seconds()), total, b.String())
 }
 
@@ -754,18 +830,24 @@ func TestStressSummary(t *testing.T) {
 	var findings, info, exits []string
 	details := map[string][]string{}
 	var raw bytes.Buffer
-	child := func(kind, share string) (crashed bool) {
+	child := func(kind, share, store string) (crashed bool) {
 		cmd := exec.Command(os.Args[0], "-test.run", "^TestStress$", "-test.v", "-test.timeout", "30m")
 		cmd.Env = append(os.Environ(), "FZ_STRESS_CHILD=1", "FZ_STRESS_CONFIG="+kind, "FZ_STRESS_SHARE="+share,
-			"GORACE=halt_on_error=0 history_size=3")
+			"FZ_STRESS_STORE="+store, "GORACE=halt_on_error=0 history_size=3")
 		var stderr, stdout bytes.Buffer
 		cmd.Stderr = &stderr
 		cmd.Stdout = &stdout
 		runErr := cmd.Run()
-		fmt.Fprintf(&raw, "##### child config=%s share=%s exit=%v\n%s\n%s\n", kind, share, runErr, stderr.String(), stdout.String())
-		exits = append(exits, fmt.Sprintf("%s/%s:%v", kind, share, runErr))
+		fmt.Fprintf(&raw, "##### child config=%s share=%s store=%s exit=%v\n%s\n%s\n", kind, share, store, runErr, stderr.String(), stdout.String())
+		exits = append(exits, fmt.Sprintf("%s/%s/%s:%v", kind, share, store, runErr))
 		f, d, i := stSummarise(stderr.String())
-		for _, x := range f {
+		for _, x0 := range f {
+			x := x0
+			if store == "raw" {
+				// findings of the run over the store as it is: requests are shared by pointer between callers
+				x = "RAW-" + x0
+				d[x] = d[x0]
+			}
 			if _, dup := details[x]; !dup {
 				findings = append(findings, x)
 				details[x] = d[x]
@@ -773,12 +855,12 @@ func TestStressSummary(t *testing.T) {
 					details[x] = []string{}
 				}
 			}
-			if strings.HasPrefix(x, "FATAL ") {
+			if strings.HasPrefix(x0, "FATAL ") {
 				crashed = true
 			}
 		}
 		if len(i) == 0 {
-			i = []string{fmt.Sprintf("STRESS config=%s share=%s ABORTED (the child died before finishing)", kind, share)}
+			i = []string{fmt.Sprintf("STRESS config=%s share=%s store=%s ABORTED (the child died before finishing)", kind, share, store)}
 			if !crashed {
 				t.Errorf("child config=%s share=%s produced no STRESS line and no fatal error\nstdout:\n%s\nstderr (tail):\n%s",
 					kind, share, stdout.String(), stTail(stderr.String(), 4000))
@@ -788,9 +870,14 @@ func TestStressSummary(t *testing.T) {
 		return crashed
 	}
 	for _, kind := range kinds {
-		if child(kind, "all") {
+		if child(kind, "all", "isolated") {
 			// the process died on an unrecoverable runtime error; look at the rest with codes unshared
-			child(kind, "tokens")
+			child(kind, "tokens", "isolated")
+		}
+	}
+	if os.Getenv("FZ_STRESS_RAW_STORE") != "0" {
+		if child(kinds[len(kinds)-1], "all", "raw") {
+			child(kinds[len(kinds)-1], "tokens", "raw")
 		}
 	}
 	if rawPath := os.Getenv("FZ_STRESS_RAW"); rawPath != "" {
